@@ -101,7 +101,7 @@ fn universe(quick: bool) -> (Vec<V>, usize) {
     let pres: Vec<Option<(&'static str, u32)>> = vec![None, Some(("a", 0)), Some(("a", 1)), Some(("b", 0)), Some(("rc", 1)), Some(("rc", 10))];
     let posts = [None, Some(0u32), Some(1)];
     let devs = [None, Some(0u32), Some(1)];
-    let locals: Vec<Option<&'static str>> = if quick { vec![None, Some("1"), Some("a"), Some("1.a"), Some("10")] } else { vec![None, Some("1"), Some("2"), Some("10"), Some("a"), Some("b"), Some("1.a"), Some("a.1"), Some("a.a")] };
+    let locals: Vec<Option<&'static str>> = if quick { vec![None, Some("1"), Some("9"), Some("10"), Some("a"), Some("1.a"), Some("a.9"), Some("a.10")] } else { vec![None, Some("1"), Some("2"), Some("9"), Some("10"), Some("a"), Some("b"), Some("1.a"), Some("a.1"), Some("a.a"), Some("a.9"), Some("a.10"), Some("a1"), Some("a.1.0")] };
     let mut out = vec![];
     let mut vid = 0;
     for e in epochs { for r in &releases { for p in &pres { for po in posts { for d in devs { for l in &locals {
